@@ -62,6 +62,7 @@ class GEvent(asyncio.Event):
         g = self.gates
         name = g.name_of()
         g.blocked[name] = self.label
+        g.block_time = g.loop.time()     # (the enclosing wait_for began now)
         try:
             await super().wait()        # woken by set() (latched) ...
         finally:
@@ -125,6 +126,7 @@ class AsyncSimpleAdapter:
             client_class = HClient
 
         self.results = []
+        self.op_start = loop.time()
         self.hk = self.ck = self.ak = 0
         self.accept_sid = ['S']
 
@@ -152,6 +154,7 @@ class AsyncSimpleAdapter:
             for op in cfg['app']:
                 try:
                     if op[0] == 'receive':
+                        me.op_start = loop.time()
                         r = await sc.receive(timeout=1 if op[1] else None)
                         me.results.append(['ok'] + [str(x) for x in r])
                     else:
@@ -233,7 +236,11 @@ class AsyncSimpleAdapter:
         g = self.g
         if a['c'] == 'timeout':
             async def tick():
-                await asyncio.sleep(1.5)     # virtual time: the wait_for fires
+                # virtual time: exactly the pending wait_for fires (the next
+                # receive() starts then and has a second of its own)
+                d = getattr(g, 'block_time', self.op_start) + 1 - \
+                    self.loop.time()
+                await asyncio.sleep(max(d, 0) + 0.25)
                 for _ in range(50):
                     await asyncio.sleep(0)
             self.loop.run_until_complete(tick())
